@@ -503,11 +503,12 @@ def _nd_from_days(vm, m, callee, args):
     return Enum('Option', 'Some', [nd])
 
 
-@native(r'^<(chrono::)?(naive::)?(date::)?NaiveDate as (chrono::)?Datelike>::(year|month|day)$', 'Datelike::{year, month, day}: the civil fields of the date')
+@native(r'^<(chrono::)?(naive::)?(date::)?NaiveDate as (chrono::)?Datelike>::(year|month|day|month0|day0)$', 'Datelike::{year, month, day, month0, day0}: the civil fields of the date (month0 / day0 count from zero)')
 def _nd_field(vm, m, callee, args):
     nd = dv(vm, args[0])
     k = callee.rsplit('::', 1)[1]
-    return BV(nd.data[{'year': 'y', 'month': 'm', 'day': 'd'}[k]], k == 'year')
+    v = nd.data[{'year': 'y', 'month': 'm', 'day': 'd', 'month0': 'm', 'day0': 'd'}[k]]
+    return BV(v - 1 if k.endswith('0') else v, k == 'year')
 
 
 @native(r'^(chrono::)?(naive::)?(date::)?NaiveDate::from_ymd_opt$', 'chrono NaiveDate::from_ymd_opt(y, m, d): Some(that date) when it exists, None otherwise')
